@@ -20,7 +20,7 @@
      deleted nor registered again and — when x (exclusive) — nobody registered v again. *)
 From Coq Require Import List ZArith Bool Permutation Lia.
 From GZgen Require Import C13Consts.
-From GZ Require Import C13.Model C13.Proofs C13.ProofsB C13.ProofsC C13.ProofsD C13.ProofsE C13.ProofsF C13.ProofsG C13.ProofsH C13.ProofsI C13.ProofsJ C13.ProofsK C13.GenProofs.
+From GZ Require Import C13.Model C13.Proofs C13.ProofsB C13.ProofsC C13.ProofsD C13.ProofsE C13.ProofsF C13.ProofsG C13.ProofsH C13.ProofsI C13.ProofsJ C13.ProofsK C13.CheckProofs C13.GenProofs.
 Import ListNotations.
 Open Scope Z_scope.
 
@@ -116,6 +116,35 @@ Theorem consistency_checker_is_sound : forall h ds pos hi,
   consistent_b h pos hi ds = true -> consistent h pos hi ds.
 Proof. exact consistent_b_sound. Qed.
 Print Assumptions consistency_checker_is_sound.
+
+(* The executable judgement that prop_ok applies to what the REAL cluster showed
+   (Check.prop_thread, at a quiescent point at which etcd is not withholding deliveries: [t] = the
+   truth implied by the deliveries, [prev] / [tr] = the judgement's record of the subscribers at the
+   previous point and now, [cs] = the observed (Values(), notifications) per subscriber) is sound
+   against the statement of the property: when it accepts, [t] is etcd's store after the n
+   mutations made so far, the i-th subscriber's Values() is within the registered values - exactly
+   those for a non-exclusive subscriber -, a changed view was notified and the last notification
+   carried the final view.  (prop_ok is therefore not an unproved oracle for this clause.) *)
+Theorem quiescent_point_judgement_is_sound : forall h t tr prev n rv cs l i x m pv x' m' pv' vals notes,
+  NoDup (mkeys t) ->
+  Check.prop_thread h t tr prev (Check.WObs n false rv cs :: l) = true ->
+  nth_error prev i = Some (x, m, pv) -> nth_error tr i = Some (x', m', pv') ->
+  nth_error cs i = Some (vals, notes) ->
+  let now := etcd_state h n in
+  (forall k, mget k t = mget k now) /\
+  (forall v, In v vals -> registered now v) /\
+  (x = false -> forall v, In v vals <-> registered now v) /\
+  (vals <> pv -> notes <> []) /\
+  (notes <> [] -> last notes [] = vals).
+Proof. exact prop_thread_observation_sound. Qed.
+Print Assumptions quiescent_point_judgement_is_sound.
+
+(* non-vacuity: etcd: put 1=10, put 2=20; a non-exclusive subscriber that showed [10] before and
+   shows [10; 20] now, notified once with the final view *)
+Example ex_judgement :
+  Check.prop_thread [BPut 1 10; BPut 2 20] [(2, 20); (1, 10)] [(false, [(2, 20); (1, 10)], [10; 20])] [(false, [(1, 10)], [10])]
+                    [Check.WObs 2 false [(1, 10); (2, 20)] [([10; 20], [[10; 20]])]] = true.
+Proof. reflexivity. Qed.
 
 (* The watch loop itself (watchUntil / watchStream / setupWatch) against etcd's stream protocol,
    with the response HEADERS in the picture.  [sact]: SBatch n hd = one watch response with the
